@@ -73,6 +73,16 @@ class Scratch:
         self.mounts = getattr(self, "mounts", []) + done
         return True
 
+    def mount_bind(self, src, dst):
+        """Bind-mounts directory src on directory dst (both exist) in the private mount namespace: another mount point of
+        the same block device, which programs that read the mount table take for a different file system location."""
+        if not _private_mount_ns():
+            return False
+        if _libc().mount(fse(src), fse(dst), None, 4096, None) != 0:
+            return False
+        self.mounts = getattr(self, "mounts", []) + [dst]
+        return True
+
     def cleanup(self):
         for m in reversed(getattr(self, "mounts", [])):
             _libc().umount2(fse(m), 2)  # MNT_DETACH
